@@ -31,3 +31,18 @@ package x25
 //@   loop 0 invariant x.crc == crcFold(old(x.crc), p, i+1)
 //@   loop 0 modifies x.crc
 //@   loop 0 decreases len(p) - i
+
+//@ func (*X25).Sum
+//@   requires x != nil
+//@   ensures  [appends-the-crc-low-byte-first] len(res) == len(b) + 2 && res[len(b)] == byte(x.crc) && res[len(b)+1] == byte(x.crc >> 8)
+//@   ensures  [prefix-kept] forall k int :: 0 <= k && k < len(b) ==> res[k] == old(b[k])
+//@   ensures  [state-kept] x.crc == old(x.crc)
+//@   modifies b[len(b):cap(b)]
+
+//@ func (*X25).Size
+//@   ensures  res == 2
+//@   modifies nothing
+
+//@ func (*X25).BlockSize
+//@   ensures  res == 1
+//@   modifies nothing
